@@ -52,24 +52,46 @@ type c18WireRig struct {
 	npeers int
 }
 
-func c18NewWireRig(target int) (*c18WireRig, error) {
-	pr := c18NewPeerRig(0, 1)
-	for i := 0; i < c18WireHosts; i++ {
-		ip := (&c18CmAddr{idx: i}).String()
-		ip = ip[:strings.LastIndex(ip, ":")]
-		pr.hostIPs = append(pr.hostIPs, ip)
-		key := addrmgr.GroupKey(wire.NewNetAddressIPPort(net.ParseIP(ip), 8333, 0))
-		if _, ok := pr.groupIdx[key]; !ok {
-			pr.groupIdx[key] = len(pr.groups)
-			pr.groups = append(pr.groups, key)
+// address universes of the wired stream: what GetNewAddress hands out (and what inbound peers
+// come from). Several textual families, see c18FamilySpecs.
+var c18WireSpecs = []string{"50.1.1.7", "2a01:4f8::1", "2A01:4F8::1", "fe80::1%eth0", "::ffff:52.1.1.7", "10.0.0.9"}
+
+func c18NewWireRig(target int, fill bool) (*c18WireRig, error) {
+	specs := c18WireSpecs
+	if fill {
+		specs = nil
+		for i := 0; i < c18WireHosts; i++ {
+			specs = append(specs, fmt.Sprintf("10.7.%d.1", i))
 		}
+	}
+	pr := c18NewPeerRigSpecs(specs)
+	if len(pr.hostIPs) > c18WireHosts || len(pr.groups) > 8 {
+		return nil, fmt.Errorf("wired universe too large for the model's state line: %d hosts, %d groups", len(pr.hostIPs), len(pr.groups))
 	}
 	cr, err := c18NewCmRig(target, true, true, time.Millisecond)
 	if err != nil {
 		return nil, err
 	}
+	for _, sp := range specs {
+		cr.addrText = append(cr.addrText, net.JoinHostPort(sp, "8333"))
+	}
 	p2p.VerifSetConnManager(pr.srv, cr.cm)
 	return &c18WireRig{pr: pr, cr: cr, target: target}, nil
+}
+
+// inKey: the admission key of an inbound peer coming from address `spec`.
+func (w *c18WireRig) inKey(spec int) int {
+	h, _, _ := net.SplitHostPort(c18SpecTCP(w.pr.specs[spec], 1).String())
+	return w.pr.keyIdx[h]
+}
+
+// groupOf: the outbound-group index of a peer of address `spec`.
+func (w *c18WireRig) groupOf(spec int, inbound bool) int {
+	ip := net.ParseIP(w.pr.specs[spec])
+	if inbound {
+		ip = c18SpecTCP(w.pr.specs[spec], 1).IP
+	}
+	return w.pr.groupIdx[addrmgr.GroupKey(wire.NewNetAddressIPPort(ip, 8333, 0))]
 }
 
 func (w *c18WireRig) stop() {
@@ -159,8 +181,8 @@ func (w *c18WireRig) exec(op string) (res string, badIndex bool, err error) {
 		if err != nil {
 			return res, false, err
 		}
-		if rp.group != num(4) {
-			return res, false, fmt.Errorf("group of host %d is %d, op says %d", num(3), rp.group, num(4))
+		if rp.group != num(4) || rp.host != num(3) {
+			return res, false, fmt.Errorf("host/group of address %d are %d/%d, op says %d/%d", num(3), rp.host, rp.group, num(3), num(4))
 		}
 		p2p.VerifSetConnReq(rp.sp, req.req) // outboundPeerConnected: sp.connReq = c
 		res = admit(rp)
@@ -185,10 +207,23 @@ func (w *c18WireRig) exec(op string) (res string, badIndex bool, err error) {
 		rp.sp.Disconnect()
 		p2p.VerifDonePeer(w.pr.srv, w.pr.st, rp.sp)
 	case "in":
+		spec := -1
+		for i := range w.pr.specs {
+			if w.inKey(i) == num(2) {
+				spec = i
+				break
+			}
+		}
+		if spec < 0 {
+			return res, false, fmt.Errorf("no address whose inbound key is host %d: %q", num(2), op)
+		}
 		w.npeers++
-		rp, err := w.pr.newPeer(fmt.Sprintf("#w%d", w.npeers), "in", num(2), true, w.pr.hsVerack, nil)
+		rp, err := w.pr.newPeer(fmt.Sprintf("#w%d", w.npeers), "in", spec, true, w.pr.hsVerack, nil)
 		if err != nil {
 			return res, false, err
+		}
+		if rp.host != num(2) {
+			return res, false, fmt.Errorf("inbound key of %q is host %d, op says %d", op, rp.host, num(2))
 		}
 		res = admit(rp)
 		if res == "admitted" {
@@ -228,7 +263,7 @@ func c18WiredSession(c *Ctx, l *lib.Lean, name string, fixed []string, next func
 		first = next(nil)
 	}
 	f := strings.Fields(first)
-	if len(f) != 4 || f[0] != "wire" || f[1] != "new" {
+	if (len(f) != 4 && len(f) != 5) || f[0] != "wire" || f[1] != "new" {
 		return nil, false, fmt.Errorf("wired history must start with `wire new <target> <banTicks>`: %q", first)
 	}
 	target, _ := strconv.Atoi(f[2])
@@ -236,7 +271,7 @@ func c18WiredSession(c *Ctx, l *lib.Lean, name string, fixed []string, next func
 	if eff == 0 {
 		eff = 8
 	}
-	w, err := c18NewWireRig(target)
+	w, err := c18NewWireRig(target, len(f) == 5 && f[4] == "fill")
 	if err != nil {
 		return nil, false, err
 	}
@@ -264,7 +299,11 @@ func c18WiredSession(c *Ctx, l *lib.Lean, name string, fixed []string, next func
 			op = next(w)
 		}
 		ops = append(ops, op)
-		model, err := l.Ask(op)
+		mop := op
+		if i == 0 && len(f) == 5 {
+			mop = strings.Join(f[:4], " ") // the universe is the harness' business
+		}
+		model, err := l.Ask(mop)
 		if err != nil {
 			return ops, false, err
 		}
@@ -334,16 +373,16 @@ func c18WiredSession(c *Ctx, l *lib.Lean, name string, fixed []string, next func
 // c18WiredGen: seeded online generator (indices are drawn from the observable state).
 func c18WiredGen(rng *rand.Rand, style string) func(w *c18WireRig) string {
 	target := 1 + rng.Intn(4)
-	nhosts := 4
-	if style == "fill" {
-		nhosts = c18WireHosts
-	}
 	var lastBanned []int
 	filled := 0
 	return func(w *c18WireRig) string {
 		if w == nil {
+			if style == "fill" {
+				return fmt.Sprintf("wire new %d %d fill", target, c18BanTicks)
+			}
 			return fmt.Sprintf("wire new %d %d", target, c18BanTicks)
 		}
+		nhosts := len(w.pr.specs)
 		_, live := w.slots()
 		host := func() int {
 			if len(lastBanned) > 0 && rng.Intn(2) == 0 {
@@ -351,15 +390,17 @@ func c18WiredGen(rng *rand.Rand, style string) func(w *c18WireRig) string {
 			}
 			return rng.Intn(nhosts)
 		}
+		in := func(spec int) string { return fmt.Sprintf("wire in %d %d", w.inKey(spec), w.groupOf(spec, true)) }
 		if style == "fill" && filled < 135 {
 			filled++
-			return fmt.Sprintf("wire in %d 0", (filled*7)%nhosts)
+			return in((filled * 7) % nhosts)
 		}
 		for {
 			x := rng.Intn(100)
 			switch {
 			case x < 36 && live > 0:
-				return fmt.Sprintf("wire ok %d %d 0", rng.Intn(live), host())
+				h := host()
+				return fmt.Sprintf("wire ok %d %d %d", rng.Intn(live), h, w.groupOf(h, false))
 			case x < 46 && live > 0:
 				return fmt.Sprintf("wire fail %d %d", rng.Intn(live), host())
 			case x < 49 && live > 0:
@@ -367,7 +408,7 @@ func c18WiredGen(rng *rand.Rand, style string) func(w *c18WireRig) string {
 			case x < 62 && len(w.out) > 0:
 				return fmt.Sprintf("wire done %d", rng.Intn(len(w.out)))
 			case x < 74:
-				return fmt.Sprintf("wire in %d 0", host())
+				return in(host())
 			case x < 80 && len(w.inb) > 0:
 				return fmt.Sprintf("wire indone %d", rng.Intn(len(w.inb)))
 			case x < 90:
